@@ -8,6 +8,7 @@ for id in "$@"; do
   if ! git -C $wt apply /tmp/seed_$id/patch.diff; then echo "$id PATCH-DOES-NOT-APPLY"; git -C /repo worktree remove --force $wt; continue; fi
   (cd $wt && /venv/bin/python -m pytest -q -p no:cacheprovider --timeout=900 --continue-on-collection-errors beartype_test > /tmp/seed_$id.suite.log 2>&1)
   grep "^FAILED\|^ERROR" /tmp/seed_$id.suite.log | sed 's/ - .*//; s/^FAILED //; s/^ERROR //' | sed 's#/#.#g; s#\.py::#::#' | sort > /tmp/seed_$id.failed.txt
+  [ -f /tmp/always_fail.txt ] || /venv/bin/python -c "import json; print(\"\\n\".join(json.load(open(\"/root/.vp/BASELINE.json\"))[\"always_fail\"]))" > /tmp/always_fail.txt
   sort /tmp/always_fail.txt > /tmp/always_fail.sorted
   if diff -q /tmp/seed_$id.failed.txt /tmp/always_fail.sorted >/dev/null; then echo "$id SUITE-OK $(tail -1 /tmp/seed_$id.suite.log)"; else echo "$id SUITE-DIFFERS"; diff /tmp/seed_$id.failed.txt /tmp/always_fail.sorted | head; fi
   git -C /repo worktree remove --force $wt
